@@ -128,12 +128,99 @@ def shape_distance(a, b):
     return d, (round(sum((ca & cb).values()) / u, 3) if u else 1.0)
 
 
+def single_defs(fnode):
+    """{local: text of E} for locals bound exactly once by a plain `local = E` (E not a bare name / literal)"""
+    locs, params = _own_locals(fnode)
+    stores = {}
+    for n in walk_no_nested(fnode):
+        if isinstance(n, ast.Name) and isinstance(n.ctx, (ast.Store, ast.Del)):
+            stores[n.id] = stores.get(n.id, 0) + 1
+    out = {}
+    for st in walk_no_nested(fnode):
+        if isinstance(st, ast.Assign) and len(st.targets) == 1 and isinstance(st.targets[0], ast.Name):
+            v = st.targets[0].id
+            if v in locs and stores.get(v) == 1 and not isinstance(st.value, (ast.Name, ast.Constant)):
+                out[v] = ast.unparse(st.value)
+    return out
+
+
 def build_hints(prog):
     h = {}
     for m in prog.modules.values():
         for q, f in m.functions.items():
-            h[m.relpath + '::' + q] = {'digest': _digest(f.node), 'sig': signatures(f.node), 'shapes': shapes(f.node)}
+            h[m.relpath + '::' + q] = {'digest': _digest(f.node), 'sig': signatures(f.node), 'shapes': shapes(f.node), 'defs': single_defs(f.node)}
     return h
+
+
+def _reextract_known_temporaries(fnode, defs, ref_shapes, respell):
+    """A temporary of the reference (`v = E`, bound once) that the current text no longer has, while E still occurs as a
+    sub-expression of a simple statement: the name is re-introduced in front of that statement (inverse of an inline-variable
+    refactoring).  Applied only when it brings the function closer to the reference shape."""
+    import copy
+    done = []
+    for _ in range(8):
+        locs, params = _own_locals(fnode)
+        progress = False
+        for v, etext in sorted(defs.items()):
+            if v in locs or v in params:
+                continue
+            base = shape_distance(shapes(fnode), ref_shapes)[0]
+            trial = copy.deepcopy(fnode)
+            if not _extract_one(trial, v, etext):
+                continue
+            respell(trial)
+            if shape_distance(shapes(trial), ref_shapes)[0] < base:
+                _extract_one(fnode, v, etext)
+                respell(fnode)
+                done.append(v)
+                progress = True
+                break
+        if not progress:
+            break
+    return done
+
+
+def _extract_one(fnode, v, etext):
+    for owner in [fnode] + [x for x in walk_no_nested(fnode) if isinstance(x, (ast.If, ast.For, ast.While, ast.With, ast.Try))]:
+        for field in ('body', 'orelse', 'finalbody'):
+            blk = getattr(owner, field, None)
+            if not isinstance(blk, list):
+                continue
+            for i, st in enumerate(blk):
+                if not isinstance(st, (ast.Assign, ast.AugAssign, ast.Expr, ast.Return)):
+                    continue
+                hits = [x for x in ast.walk(st) if isinstance(x, ast.expr) and getattr(x, 'ctx', None).__class__ is not ast.Store
+                        and not isinstance(x, (ast.Name, ast.Constant)) and ast.unparse(x) == etext]
+                # not under lazy operators / comprehensions
+                lazy = set()
+                for x in ast.walk(st):
+                    if isinstance(x, ast.BoolOp):
+                        for w in x.values[1:]:
+                            lazy |= {id(y) for y in ast.walk(w)}
+                    elif isinstance(x, ast.IfExp):
+                        lazy |= {id(y) for y in ast.walk(x.body)} | {id(y) for y in ast.walk(x.orelse)}
+                    elif isinstance(x, (ast.Lambda, ast.ListComp, ast.SetComp, ast.DictComp, ast.GeneratorExp)):
+                        lazy |= {id(y) for y in ast.walk(x)} - {id(x)}
+                hits = [h for h in hits if id(h) not in lazy]
+                if not hits:
+                    continue
+                first = hits[0]
+
+                class _R(ast.NodeTransformer):
+                    def generic_visit(self, n):
+                        if isinstance(n, ast.expr) and not isinstance(n, (ast.Name, ast.Constant)) and getattr(n, 'ctx', None).__class__ is not ast.Store \
+                                and id(n) not in lazy and ast.unparse(n) == etext:
+                            return ast.copy_location(ast.Name(id=v, ctx=ast.Load()), n)
+                        return super().generic_visit(n)
+                import copy
+                val = copy.deepcopy(first)
+                _R().visit(st)
+                new = ast.copy_location(ast.Assign(targets=[ast.Name(id=v, ctx=ast.Store())], value=val), st)
+                ast.fix_missing_locations(new)
+                ast.fix_missing_locations(st)
+                blk.insert(i, new)
+                return True
+    return False
 
 
 def _similarity(a, b):
@@ -426,10 +513,33 @@ def _expand_call(hnode, call, mode, target_stmt):
                 and tname not in {n.id for a_ in binding.values() for n in ast.walk(a_) if isinstance(n, ast.Name)}:
             ret_local = next(iter(names))
             mapping[ret_local] = tname
+    # `A, B = helper(..)` where every return is the same tuple of distinct helper-locals: those locals *are* A and B
+    ret_tuple = False
+    if mode == 'assign' and same_name is None and ret_local is None and len(target_stmt.targets) == 1 \
+            and isinstance(target_stmt.targets[0], (ast.Tuple, ast.List)) and all(isinstance(e, ast.Name) for e in target_stmt.targets[0].elts):
+        tnames = [e.id for e in target_stmt.targets[0].elts]
+        rets = [x for x in ast.walk(hnode) if isinstance(x, ast.Return)]
+        forms = {tuple(e.id if isinstance(e, ast.Name) else None for e in r.value.elts) if isinstance(r.value, ast.Tuple) else None for r in rets}
+        argnames = {n.id for a_ in binding.values() for n in ast.walk(a_) if isinstance(n, ast.Name)}
+        if rets and len(forms) == 1:
+            form = next(iter(forms))
+            if form is not None and len(form) == len(tnames) and None not in form and len(set(form)) == len(form):
+                # each returned name is a helper-local (then the target must not be read by the arguments), or a parameter that was
+                # called with exactly the target's own name (`s0, d0 = h(s0, d0)`: the parameter is that variable)
+                def fits(x, t):
+                    if x in locs:
+                        return t not in argnames
+                    return x in binding and isinstance(binding[x], ast.Name) and binding[x].id == t
+                if all(fits(x, t) for x, t in zip(form, tnames)):
+                    for loc_, t_ in zip(form, tnames):
+                        mapping[loc_] = t_
+                    ret_tuple = True
     for pn, arg in binding.items():
         simple = not any(isinstance(x, (ast.Call, ast.Lambda, ast.IfExp, ast.BoolOp, ast.ListComp, ast.GeneratorExp)) for x in ast.walk(arg))
         if pn == same_name:
             mapping[pn] = arg.id
+        elif ret_tuple and isinstance(mapping.get(pn), str):
+            pass                      # parameter identified with a target of the same name above
         elif simple and pn not in stored_params:
             mapping[pn] = arg
         else:
@@ -443,7 +553,9 @@ def _expand_call(hnode, call, mode, target_stmt):
             if isinstance(st, ast.Return):
                 v = st.value if st.value is not None else ast.Constant(value=None)
                 if mode == 'assign':
-                    if not ((same_name is not None or ret_local is not None) and isinstance(v, ast.Name) and v.id == target_stmt.targets[0].id):
+                    if ret_tuple and isinstance(v, ast.Tuple) and [getattr(e, 'id', None) for e in v.elts] == [e.id for e in target_stmt.targets[0].elts]:
+                        pass
+                    elif not ((same_name is not None or ret_local is not None) and isinstance(v, ast.Name) and v.id == target_stmt.targets[0].id):
                         out.append(ast.Assign(targets=copy.deepcopy(target_stmt.targets), value=v))
                 elif mode == 'return':
                     out.append(ast.Return(value=v))
@@ -466,9 +578,26 @@ def _expand_call(hnode, call, mode, target_stmt):
     if via_temp is not None:
         value = ast.Name(id=via_temp, ctx=ast.Load())
     stmts = [x for x in pre + stmts if not isinstance(x, ast.Pass)]
+    # every node of the expansion is positioned at the call site, in evaluation order (the helper's own line numbers mean nothing here)
+    counter = [getattr(target_stmt, 'col_offset', 0) * 1000]
+
+    def place(node):
+        if isinstance(node, ast.Assign):
+            order = [node.value] + list(node.targets)
+        elif isinstance(node, ast.AugAssign):
+            order = [node.value, node.target]
+        else:
+            order = list(ast.iter_child_nodes(node))
+        if hasattr(node, 'lineno') or isinstance(node, (ast.expr, ast.stmt)):
+            node.lineno = node.end_lineno = getattr(target_stmt, 'lineno', 1)
+            counter[0] += 1
+            node.col_offset = node.end_col_offset = counter[0]
+        for ch in order:
+            place(ch)
     for x in stmts:
-        ast.copy_location(x, target_stmt)
-        ast.fix_missing_locations(x)
+        place(x)
+    if value is not None:
+        place(value)
     return stmts, value
 
 
@@ -552,6 +681,81 @@ def _inline_new_helpers(fnode, helpers):
     return done
 
 
+def _merge_expanded_locals(fnode, known):
+    """A local `_hK_x` created by a helper expansion whose base name `x` is a variable of the reference: the helper re-used a name
+    the reference function also uses elsewhere (typically a loop variable).  The two are merged when their lifetimes cannot overlap:
+    every other occurrence of `x` lies in statements entirely before the expanded region, or entirely after it and then starting with
+    a store, and no loop encloses both."""
+    import re
+    done = {}
+    names = {}
+    for n in walk_no_nested(fnode):
+        if isinstance(n, ast.Name):
+            names.setdefault(n.id, []).append(n)
+    for full in sorted(names):
+        mm = re.match(r'_h\d+_(.+)$', full)
+        if not mm:
+            continue
+        base = mm.group(1)
+        if base not in known or full in known:
+            continue
+        mine = names[full]
+        if not isinstance(sorted(mine, key=lambda n: (n.lineno, n.col_offset))[0].ctx, ast.Store):
+            continue
+        other = names.get(base, [])
+        pm = _ParentLoops(fnode)
+        region_loops = set()
+        for n in mine:
+            region_loops |= pm.loops_of(n)
+        region_loops_common = None
+        for n in mine:
+            lp = pm.loops_of(n)
+            region_loops_common = lp if region_loops_common is None else (region_loops_common & lp)
+        ok = True
+        lo = min((n.lineno, n.col_offset) for n in mine)
+        hi = max((n.lineno, n.col_offset) for n in mine)
+        after = []
+        for n in other:
+            pos = (n.lineno, n.col_offset)
+            if pm.loops_of(n) & (region_loops_common or set()):
+                ok = False        # shares an enclosing loop with the region: values may flow around the loop
+                break
+            if pos < lo:
+                continue
+            if pos > hi:
+                after.append(n)
+            else:
+                ok = False
+                break
+        if ok and after:
+            first = sorted(after, key=lambda n: (n.lineno, n.col_offset))[0]
+            ok = isinstance(first.ctx, ast.Store)
+        if ok:
+            for n in mine:
+                n.id = base
+            done[full] = base
+    return done
+
+
+class _ParentLoops:
+    def __init__(self, fnode):
+        self.loops = {}
+
+        def rec(node, stack):
+            for ch in ast.iter_child_nodes(node):
+                if isinstance(ch, (ast.FunctionDef, ast.AsyncFunctionDef, ast.Lambda)):
+                    continue
+                st2 = stack
+                if isinstance(node, (ast.For, ast.While)) and (ch in node.body or ch is getattr(node, 'target', None) or ch is getattr(node, 'test', None)):
+                    st2 = stack | {id(node)}
+                self.loops[id(ch)] = st2
+                rec(ch, st2)
+        rec(fnode, frozenset())
+
+    def loops_of(self, n):
+        return set(self.loops.get(id(n), ()))
+
+
 def _fold_tuple_copies(fnode, known):
     """`a, t = f(..)` followed (next statement) by `X = t`, with t a name the reference does not have and used nowhere else:
     the element is written directly, `a, X = f(..)`."""
@@ -623,6 +827,11 @@ def normalise(prog, hints=None):
                 if ren:
                     _apply(f.node, ren)
                     done.setdefault(key, {}).update(ren)
+                if not ren:
+                    mrg = _merge_expanded_locals(f.node, known)
+                    if mrg:
+                        done.setdefault(key, {}).update(mrg)
+                        ren = mrg
                 # fold ONE unknown temporary per round, the one that brings the function closest to the reference shape (a renamed
                 # variable of the reference must not be folded away before the renaming step had a chance to recognise it)
                 inl = _fold_tuple_copies(f.node, known)
@@ -645,7 +854,12 @@ def normalise(prog, hints=None):
                 if inl:
                     done.setdefault(key, {}).update({k: '<inlined>' for k in inl})
                     canonical(f.node, m._np_alias)
-                if not ren and not inl:
+                rex = []
+                if not ren and not inl and ref_shapes is not None and hints[key].get('defs'):
+                    rex = _reextract_known_temporaries(f.node, hints[key]['defs'], ref_shapes, lambda nd: canonical(nd, m._np_alias))
+                    if rex:
+                        done.setdefault(key, {}).update({k: '<re-extracted>' for k in rex})
+                if not ren and not inl and not rex:
                     break
             if 'shapes' in hints[key]:
                 dist[key] = shape_distance(shapes(f.node), hints[key]['shapes'])
